@@ -31,6 +31,11 @@ def run(ctx, chk):
     b2(fb, chk)
     b3(fb, chk)
     n = lambda r: len([i for i in chk.instances if i[0] == r])
+    # the descriptor of a request travels with its first byte on every (re)try of the send (C01/W6)
+    from vlint.report import Renamed as _Renamed
+    from . import c01 as _c01
+    chk.rule("B4", "descriptors are attached to the first byte of a message on every attempt of the send loop (C01/W6)")
+    _c01.w6(fb, _Renamed(chk, {"W6": "B4"}))
     chk.floor("B1", n("B1"), 8)
     chk.floor("B2", n("B2"), 6)
     chk.floor("B3", n("B3"), 6)
